@@ -58,12 +58,13 @@ ScenC14(u) == {Run(<<Doc("md", tfm, None, "no", C14Tests(p, t))>>, tcli, <<>>, <
 \* ---- C15: the skip code (default 80, document default 7, inline 9) and a decoy (exit 80 where the code is 7)
 SkipperTc(id, code, exp, inline) == Tc(id, "exit", code, 0, exp, "stdout", "stdout", "match", None, FALSE, inline)
 C15Doc(p, cfg, exp, others) ==
-    Doc("md", None, IF cfg \in {"docdef", "decoy"} THEN 7 ELSE None, "no",
+    Doc("md", None, IF cfg \in {"docdef", "decoy", "both", "bothdecoy"} THEN 7 ELSE None, "no",
         [x \in 1..3 |-> IF x = p
-            THEN SkipperTc(Ids[1][x], CASE cfg = "def" -> 80 [] cfg = "docdef" -> 7 [] cfg = "inline" -> 9 [] cfg = "decoy" -> 80,
-                           exp, IF cfg = "inline" THEN 9 ELSE None)
+            THEN SkipperTc(Ids[1][x], CASE cfg = "def" -> 80 [] cfg = "docdef" -> 7 [] cfg = "inline" -> 9 [] cfg = "decoy" -> 80
+                                        [] cfg = "both" -> 9 [] cfg = "bothdecoy" -> 7,      \* document default 7 AND inline 9: inline wins
+                           exp, IF cfg \in {"inline", "both", "bothdecoy"} THEN 9 ELSE None)
             ELSE Kind(others[x], Ids[1][x])])
-C15Docs(u) == {C15Doc(p, cfg, exp, others) : p \in 0..3, cfg \in {"def", "docdef", "inline", "decoy"},
+C15Docs(u) == {C15Doc(p, cfg, exp, others) : p \in 0..3, cfg \in {"def", "docdef", "inline", "decoy", "both", "bothdecoy"},
                                           exp \in {None, 3, 80}, others \in [1..3 -> {"pass", "failout", "failcode"}]}
 Second(name) == Md(<<Kind(name, Ids[2][1])>>)
 ScenC15(u) == {Plain(<<dc>>) : dc \in C15Docs(0)}
@@ -142,7 +143,7 @@ DetachedAndCut(cuts) ==
         tests \in UNION {{<<Kind("det", "d1t1"), CutTc(x, "d1t2"), Kind("pass", "d1t3")>>,
                           <<Kind(n1, "d1t1"), Kind("det", "d1t2"), CutTc(x, "d1t3")>>} : x \in cuts, n1 \in {"pass", "failout"}}}
 Scenarios == CASE Focus = "C05" -> ScenC05(0) \cup SharedAndTimeout(0) \cup DetachedAndCut({"slow", "sig_noexp", "failcode"}) \cup SharedPlain(0)
-               [] Focus = "C14" -> ScenC14(0) \cup DetachedAndCut({"slow"}) \cup LimitAndShared(0) [] Focus = "C15" -> ScenC15(0) \cup DetachedAndCut({"skip80"}) \cup C15Compat(0)
+               [] Focus = "C14" -> ScenC14(0) \cup DetachedAndCut({"slow"}) \cup LimitAndShared(0) [] Focus = "C15" -> ScenC15(0) \cup DetachedAndCut({"skip80", "slow"}) \cup C15Compat(0)
                [] Focus = "C20" -> ScenC20(0) \cup SharedAndTimeout(0) \cup DetachedAndCut({"slow", "sig_noexp", "skip80", "failout"})
 
 Init == /\ sc \in Scenarios
